@@ -33,9 +33,17 @@ package signature
 //@     decreases size - i
 //@     progress r.pos
 
+// Every member of a tuple / struct / map entry is read, in order (treads counts the member reads of
+// this tuple reader): stopping early would still return exactly the bytes consumed, but not the
+// whole value.
+//@ ghostfield treads int counter
 //@ func (v tupleReader) Read(r io.Reader) (result []byte, err error)
 //@   requires forall k int :: 0 <= k && k < len(v) ==> v[k].reader != nil
+//@   modifies v.treads
+//@   ensures[C02,C03] err == nil ==> v.treads == old(v.treads) + len(v)
+//@   call Read#1: ghost v.treads := v.treads + 1
 //@   loop 1:
+//@     invariant v.treads == old(v.treads) + rangeindex + 1
 //@     invariant buf.pos == 0 && buf.len == r.pos - old(r.pos) && buf.accepting
 //@     invariant forall j int {buf.data[j]} :: 0 <= j && j < buf.len ==> buf.data[j] == r.data[old(r.pos) + j]
 //@     invariant r.pos >= old(r.pos) && r.pos <= r.len
